@@ -233,9 +233,10 @@ class World:
     # -- commands (each on a fresh Repository object, like a fresh process)
     async def snapshot(self, user, src_dir, files, backend=None, note=None, record=True):
         r = await self.unlocked(user, backend)
-        before = sum(1 for c in self.backend.calls if c[0] == 'upload_stream')
+        calls = getattr(self.backend, 'calls', [])
+        before = sum(1 for c in calls if c[0] == 'upload_stream')
         res = await r.snapshot(paths=list(src_dir) if isinstance(src_dir, (list, tuple)) else [src_dir], note=note)
-        uploaded = [c[1] for c in self.backend.calls[0:] if c[0] == 'upload_stream'][before:]
+        uploaded = [c[1] for c in calls[0:] if c[0] == 'upload_stream'][before:]
         if not record:
             return res, {r._chunk_digest_to_location(d): (user['fam'], self.did(d)) for d in res.chunks}
         sid = self.next_sid
